@@ -12,7 +12,8 @@ EXTENDS Integers, Sequences, FiniteSets, TLC, Json
 
 CONSTANTS MaxLen,        \* maximal content length
           Alphabet,      \* symbols; 0 is the newline
-          Ms             \* candidate max_event_size values (0 = unlimited)
+          Ms,            \* candidate max_event_size values (0 = unlimited)
+          M_MaintenanceKeepsTail   \* maintenance of an idle job leaves its held-back tail alone
 
 NL == 0
 
@@ -98,6 +99,14 @@ Init ==
   /\ lastOffset = 0 /\ accum = <<>> /\ buf = <<>> /\ scanned = 0 /\ readTotal = 0
   /\ calls = <<>> /\ rounds = <<>>
 
+(* maintenance looks at the idle job (descriptor released and re-opened at the same position; Job.seek(0, SeekCurrent) to learn
+   the position): a stuttering step for the reader's state -- position, offset and the held-back tail stay.  M_MaintenanceKeepsTail
+   FALSE = Job.seek forgets the tail (seeded change r2-C03-2 / r5-C06-1). *)
+Maintain ==
+  /\ pc = "idle" /\ rounds # <<>>
+  /\ tail' = IF M_MaintenanceKeepsTail THEN tail ELSE <<>>
+  /\ UNCHANGED <<cs, shouldSkip, skipLine, file, seg, pos, curOffset, pc, lastOffset, accum, buf, scanned, readTotal, calls, rounds>>
+
 (* job taken from jobsChan: lastOffset := job.curOffset; accumBuf := job.tail *)
 StartRound ==
   /\ pc = "idle"
@@ -166,7 +175,7 @@ EndRound ==
        ELSE /\ pc' = "done" /\ UNCHANGED <<file, seg>>
   /\ UNCHANGED <<cs, shouldSkip, skipLine, pos, curOffset, tail, lastOffset, accum, buf, scanned, readTotal, calls>>
 
-Next == StartRound \/ Read \/ Scan \/ AfterBuf \/ EndRound
+Next == StartRound \/ Read \/ Scan \/ AfterBuf \/ EndRound \/ Maintain
 
 Spec == Init /\ [][Next]_vars
 
